@@ -11,6 +11,7 @@ import Driver.C12
 import Driver.C13
 import Driver.C16
 import Driver.C17
+import Driver.C19
 open Lean
 
 def dispatch (p op : String) (c i : Json) : Except String (Json × String) :=
@@ -27,6 +28,7 @@ def dispatch (p op : String) (c i : Json) : Except String (Json × String) :=
   | "C13" => D13.handle op c i
   | "C16" => D16.handle op c i
   | "C17" => D17.handle op c i
+  | "C19" => D19.handle op c i
   | _ => throw s!"unknown property {p}"
 
 def handleLine (line : String) : String :=
